@@ -154,24 +154,33 @@ LIMIT = 1 << 96
 R50 = " ABCDEFGHIJKLMNOPQRSTUVWXYZ$.%0123456789"
 
 
-def ev(e, syms, dot, enc):
-    """enc: code point -> list of bytes or None"""
+def ev(e, syms, dot, enc, errs=None):
+    """enc: code point -> list of bytes or None.
+    errs is None: stop at the first error (EvalError), like Spec.Arith.eval.
+    errs is a list: record the error and go on with the value the code goes on with (used only to
+    keep every intermediate value of the real run and of the model small: TooBig)."""
+    def fail(ident, recovery):
+        if errs is None:
+            raise EvalError(ident)
+        errs.append(ident)
+        return recovery
     k = e[0]
     if k == "lit":
         L = e[1]
         if L[0] == "num":
             return -L[5] if L[1] else L[5]
         if L[0] == "bad89":
-            raise EvalError("invalid-number")
+            dec = int("".join(str(d) for d in L[2]))
+            return fail("invalid-number", -dec if L[1] else dec)
         if L[0] in ("ch1", "ch2"):
             bs = []
             for c in L[1:]:
                 b = enc(c)
                 if b is None:
-                    raise EvalError("invalid-character")
+                    return fail("invalid-character", 0)
                 bs += b
             if len(bs) > 2:
-                raise EvalError("too-long-string")
+                fail("too-long-string", 0)
             bs += [0, 0]
             return bs[0] + 256 * bs[1]
         if L[0] == "r50":
@@ -179,35 +188,34 @@ def ev(e, syms, dot, enc):
             return cs[0] * 1600 + cs[1] * 40 + cs[2]
     if k == "sym":
         if e[1] not in syms:
-            raise EvalError("undefined-symbol")
+            return fail("undefined-symbol", 0)
         return syms[e[1]]
     if k == "dot":
         return dot
     if k == "grp":
-        return ev(e[2], syms, dot, enc)
+        return ev(e[2], syms, dot, enc, errs)
     if k == "un":
-        a = ev(e[2], syms, dot, enc)
+        a = ev(e[2], syms, dot, enc, errs)
         return {"UPlus": a, "UNeg": -a, "UInv": -a - 1, "UCompl": -a - 1}[e[1]]
     if k == "bin":
         o = e[1]
-        a = ev(e[2], syms, dot, enc)
-        b = ev(e[3], syms, dot, enc)
+        a = ev(e[2], syms, dot, enc, errs)
+        b = ev(e[3], syms, dot, enc, errs)
         if o in ("BDiv", "BMod"):
             if b == 0:
-                raise EvalError("arithmetic-error")
+                return fail("arithmetic-error", 0)
             # floor division written out, not with Python's own // and %
             q, r = divmod(abs(a), abs(b))
             if (a < 0) != (b < 0):
                 q = -q - (1 if r else 0)
-            else:
-                pass
             v = q if o == "BDiv" else a - b * q
         elif o in ("BShl", "BShr", "BLsh"):
-            if o != "BLsh" and b < 0:
-                raise EvalError("arithmetic-error")
             if abs(b) > 200:
                 raise TooBig()
             left = (o == "BShl") or (o == "BLsh" and b >= 0)
+            if o != "BLsh" and b < 0:
+                fail("arithmetic-error", 0)
+                left = not left     # the code goes on with the opposite shift by -b
             n = abs(b)
             if left:
                 v = a * (1 << n)
@@ -230,6 +238,15 @@ def ev(e, syms, dot, enc):
             raise TooBig()
         return v
     raise ValueError(e)
+
+
+def small_enough(e, syms, dot, enc):
+    """every intermediate value of the real run stays small (also past reported errors)"""
+    try:
+        ev(e, syms, dot, enc, errs=[])
+        return True
+    except TooBig:
+        return False
 
 
 def expected(e, syms, dot, enc):
